@@ -242,7 +242,35 @@ def r5_finalize_order(cx):
               "informational: Late::get refuses a slot that was never set (a cluster whose address was dropped cannot be written as offset 0)", info=True)
 
 
+def r6_table_positions_are_stream_positions(cx):
+    """clusters land in the file in completion order, so the position of the cluster-pointer table (and of the content
+    table) recorded in the header is where the stream IS when the table is written -- a `tell()` taken right before
+    the write -- never something computed from a cluster's address"""
+    F = cx.F
+    f = F.one(impl_self="ContentPackCreator", item="finalize", closure=False)
+    b = F.body(f)
+    hn = b.calls(r"ContentPackHeader::new$")
+    if len(hn) != 1:
+        raise AnchorLost("ContentPackCreator::finalize: ContentPackHeader::new sites: %d" % len(hn))
+    tells = {i for i, _ in b.calls(r"OutStream>::tell$|Seek>::stream_position$")}
+    writes = [i for i, _ in b.calls(r"OutStream>::ser_callable$|OutStream>::ser_write|Write>::write_all$")]
+    for name, k in (("cluster_ptr_pos", 1), ("content_ptr_pos", 3)):
+        o = b.origins(hn[0][1]["args"][k], through_calls=False)
+        calls = {x[1] for x in o if x[0] == "call"}
+        others = [x for x in o if x[0] in ("field", "param") or (x[0] == "const" and isinstance(x[1], int))]
+        ok = len(calls) == 1 and calls <= tells and not others
+        if ok:
+            t = next(iter(calls))
+            # the next stream operation after that tell() is the write of the table
+            nxt = [w for w in writes if t in [t] and b.dominates(t, w) and w != t]
+            first = [w for w in nxt if not any(b.dominates(x, w) and x != w and b.dominates(t, x) for x in nxt)]
+            ok = bool(first) and all(call_is(b.term(w), r"ser_callable$") for w in first)
+        cx.ob("R6", "R6/finalize/%s-is-tell-before-table" % name, ok, f,
+              "header.%s is the stream position taken immediately before the table is written (derives from %s)" % (name, sorted(callee_str(b.term(c)).split("::")[-1] for c in calls) + [str(x) for x in others]))
+
+
 RULES = [
+    ("R6", r6_table_positions_are_stream_positions, 2),
     ("R1", r1_address_table, 7),
     ("R2", r2_rebasing, 3),
     ("R3", r3_termination, 3),
